@@ -1,0 +1,11 @@
+//go:build verif
+
+// Contracts for package events, read as text by the verification-condition generator in /verif.
+// This file contains no code; with the build tag off it is not part of the build at all.
+
+package events
+
+//@ const_global arrayTypeElementSizes
+
+//@ func (ArrayType).ElementSize
+//@   inline
